@@ -10,15 +10,18 @@ import random
 import cedar
 import framework as fw
 import gen
+from sx import Str, Sym
 
 PROP = "C20"
 LEVEL = "other"
 PROP_FILE = "C20_NoPanic"
-THEOREMS = []
+THEOREMS = ["c20_levenshtein_no_panic", "c20_fuzzy_search_no_panic", "c20_fuzzy_search_candidate", "c20_wildcard_no_panic",
+            "c20_ip_in_range_no_panic", "c20_ip_prefix_bound", "c20_ip_prefix_needed",
+            "c20_display_extn_no_panic", "c20_display_extn_old_refuted"]
 
 MANIFEST = {
     "category": "other",
-    "text": "Partial by nature: Gallina functions are total, so what a proof can carry is the local invariant of each expect/index/unreachable site that lies inside a modelled function (props/C20_NoPanic.v, growing with the model). Everything else is exploration: all text/JSON/protobuf/FFI entry points are driven with valid, structure-mutated and byte-mutated documents through the pipelines parse -> {print, to_json, format, validate, authorize, link, encode} with every error rendered, under catch_unwind, in subprocesses so that aborts are seen too.",
+    "text": "Partial by nature. Proof part (props/C20_NoPanic.v, 9 theorems, no axioms): index-level transcriptions of four functions whose panic freedom rests on invariants asserted only in prose (fuzzy_match levenshtein_distance/fuzzy_search_limited, Pattern::wildcard_match, IPAddr::is_in_range, est display of __extn calls) with every slice index, unsigned subtraction and shift made an explicit Panic outcome; theorems: no input reaches a Panic (plus: the ip parser establishes the prefix bound the subtraction needs; the pre-fix display code panicked exactly on method-style calls without arguments). These transcriptions are run against the implementation on generated inputs every run (site_correspondence in the evidence). Everything else is exploration, labelled as such: all text/JSON/protobuf/FFI entry points are driven with valid, structure-mutated and byte-mutated documents through the pipelines parse -> {print, to_json, format, validate, authorize, link, encode} with every error rendered, under catch_unwind, in subprocesses so that aborts are seen too.",
     "technique": "Coq lemmas for panic-site invariants of modelled functions + runtime exploration (structure-aware and byte-level mutation) under catch_unwind",
     "note": "The exploration part is not a proof and is labelled as such in the evidence (level other).",
 }
@@ -331,6 +334,131 @@ def generate(rng, n):
     return cases
 
 
+# ------------------------------------------------------------------ proof part: site correspondence
+# The checked (explicit-panic) transcriptions of coq/model/NoPanic.v are run against the implementation.
+ALPHA = [ord("a"), ord("b"), ord("c"), ord("A"), 0xE9, 0x4E2D, 0x1F600, ord(":"), ord("_")]
+IDENTS = ["principal", "Principal", "resource", "action", "context", "User", "Users", "user", "Group", "Photo", "Album",
+          "owner", "ownr", "owners", "naïve", "größe", "café", "名前", "名", "😀x", "ns::User", "NS::Usr", "a", "ab", "ba", ""]
+IP_STRS = ["0.0.0.0/0", "10.1.2.3", "10.0.0.0/8", "255.255.255.255/32", "127.0.0.1/31", "192.168.0.1/33", "1.2.3.4/032",
+           "::/0", "::1", "::1/128", "ff00::/8", "1:2:3:4::", "1:2:3:4::/64", "ffff:ffff:ffff:ffff:ffff:ffff:ffff:ffff/127",
+           "::/129", "::ffff:1.2.3.4", "1.2.3.4/", "/8", "1.2.3/8", "10.1.2.3/1", "128.0.0.0/1", "fe80::1/10"]
+EXTN_FNS = ["decimal", "ip", "datetime", "duration", "isIpv4", "isIpv6", "isLoopback", "isMulticast", "isInRange", "lessThan",
+            "lessThanOrEqual", "greaterThan", "greaterThanOrEqual", "offset", "durationSince", "toDate", "toTime",
+            "toMilliseconds", "toSeconds", "toMinutes", "toHours", "toDays", "nosuchfn", "isipv4"]
+
+
+def rand_word(rng, maxlen=7):
+    return [rng.choice(ALPHA) for _ in range(rng.randint(0, maxlen))]
+
+
+def site_cases(rng, tier):
+    """(model command as S-expression, harness command) pairs"""
+    out = []
+    n = 1 if tier == "quick" else 12
+    words = [[ord(c) for c in w] for w in IDENTS]
+    # fuzzy search: every identifier as key against rotating candidate lists, three thresholds; random words
+    for k in words:
+        for _ in range(2 * n):
+            lst = rng.sample(words, rng.randint(0, 5)) + [rand_word(rng) for _ in range(rng.randint(0, 2))]
+            rng.shuffle(lst)
+            mx = rng.choice([None, None, 0, 1, 2, 3, 10])
+            out.append(([Sym("np_fuzzy"), Str(k), [Str(w) for w in lst], Sym("none") if mx is None else mx],
+                        {"cmd": "np_fuzzy", "key": k, "words": lst, "max": mx}))
+    for _ in range(300 * n):
+        a, b = rand_word(rng, 9), rand_word(rng, 9)
+        if rng.random() < 0.4 and a:      # near misses: edit a copy
+            b = list(a)
+            for _e in range(rng.randint(0, 3)):
+                r = rng.random()
+                pos = rng.randint(0, len(b))
+                if r < 0.35:
+                    b.insert(pos, rng.choice(ALPHA))
+                elif r < 0.7 and b:
+                    b.pop(min(pos, len(b) - 1))
+                elif b:
+                    b[min(pos, len(b) - 1)] = rng.choice(ALPHA)
+        out.append(([Sym("np_lev"), Str(a), Str(b)], {"cmd": "np_lev", "a": a, "b": b}))
+    # wildcard: patterns over {a, b, *} with multi-byte text
+    pal = [ord("a"), ord("b"), 0x1F600, "star", "star"]
+    for _ in range(400 * n):
+        pat = [rng.choice(pal) for _ in range(rng.randint(0, 6))]
+        text = [rng.choice([ord("a"), ord("b"), 0x1F600]) for _ in range(rng.randint(0, 7))]
+        out.append(([Sym("np_like"), [Sym("star") if e == "star" else e for e in pat], Str(text)],
+                    {"cmd": "np_like", "pattern": pat, "text": text}))
+    # isInRange: all pairs of the address table (prefix 0, full prefix, out-of-range prefixes, both families)
+    for a in IP_STRS:
+        for b in IP_STRS:
+            out.append(([Sym("np_inrange"), Str(a), Str(b)], {"cmd": "np_inrange", "a": [ord(c) for c in a], "b": [ord(c) for c in b]}))
+    # display of {"__extn": {"fn", "args"}} for every function name x arity 0..3
+    for f in EXTN_FNS:
+        for k in range(4):
+            args = [rng.randint(0, 99) for _ in range(k)]
+            out.append(([Sym("np_display_extn"), Str(f), [Str(str(a)) for a in args]],
+                        {"cmd": "np_display_extn", "fn": [ord(c) for c in f], "args": args}))
+    return out
+
+
+def norm_model(m):
+    """model answer -> comparable python value"""
+    if isinstance(m, list) and m and m[0] == "panic":
+        return ("panic",)
+    if isinstance(m, list) and m and m[0] == "ok":
+        v = m[1]
+        if isinstance(v, list) and v and v[0] == "some":
+            return ("ok", list(v[1]))
+        if v == "none":
+            return ("ok", None)
+        if v == "true" or v == "false":
+            return ("ok", v == "true")
+        if isinstance(v, (Str, tuple)):
+            return ("ok", list(v))
+        return ("ok", v)
+    if isinstance(m, list) and m:
+        return (str(m[0]),)
+    return ("?", repr(m))
+
+
+def norm_rust(r):
+    if "panic" in r or "abort" in r:
+        return ("panic",)
+    if "noparse" in r:
+        return ("noparse",)
+    if "ok" in r:
+        return ("ok", r["ok"])
+    return ("?", json.dumps(r)[:200])
+
+
+def run_sites(rep, rng, tier, harness):
+    driver = fw.build_model_driver()
+    cases = site_cases(rng, tier)
+    mcmds = [c[0] for c in cases]
+    mres = fw.run_model(driver, mcmds)
+    rres = fw.run_rust(harness, [c[1] for c in cases])
+    stats = {"cases": len(cases), "per_site": {}, "model_panics": 0, "impl_panics": 0, "differences": 0}
+    for (mc, rc), m, r in zip(cases, mres, rres):
+        site = rc["cmd"]
+        stats["per_site"][site] = stats["per_site"].get(site, 0) + 1
+        nm, nr = norm_model(m), norm_rust(r)
+        if site == "np_lev" and nr == ("ok", None):
+            continue        # empty key: the implementation offers no way to observe the distance
+        if nm == ("panic",):
+            stats["model_panics"] += 1
+        if nr == ("panic",):
+            stats["impl_panics"] += 1
+            rep.violation({"property": PROP, "kind": "panic", "site": site, "message": r.get("panic") or r.get("abort"),
+                           "input": rc, "model": repr(m), "rust": r,
+                           "replay": "echo '<input>' | harness/target/debug/cedar-verif-harness"})
+        elif nm != nr:
+            stats["differences"] += 1
+            rep.violation({"property": PROP, "kind": "correspondence", "site": site, "input": rc, "model": repr(m), "rust": r,
+                           "lost": "the no-panic theorem of this site in props/C20_NoPanic.v is about a model that no longer matches the code"},
+                          no_failing_input=True)
+    pick = list(range(0, len(cases), max(1, len(cases) // 64)))[:64]
+    stats["vm_compute_crosschecked"] = fw.coq_crosscheck([mcmds[i] for i in pick], [mres[i] for i in pick], PROP)
+    stats["samples"] = [cases[i][1] for i in pick[:3]]
+    return stats
+
+
 def known_key(case, msg):
     return None
 
@@ -369,9 +497,11 @@ def run(rep, tier, seed):
             pass
     for f in failures:
         rep.violation({"property": PROP, "kind": "proof obligation no longer checks", "detail": f}, no_failing_input=True)
+    sites = run_sites(rep, random.Random(seed + 1), tier, harness)
     rep.coverage = {
-        "explanation": "proof part: %d site-invariant theorems (props/%s.v) of which %d discharged; exploration part: %d documents over %d entry-point kinds driven through parse -> print/to_json/format/validate/authorize/link/encode with all diagnostics rendered, under catch_unwind in subprocesses" % (ob, PROP_FILE, dis, len(cases), len(kinds)),
-        "obligations": ob, "discharged": dis, "theorems": details,
+        "explanation": "proof part: %d site-invariant theorems (props/%s.v) of which %d discharged, the checked index-level transcriptions run against fuzzy_search_limited / wildcard_match / isInRange / display of __extn on generated inputs (site_correspondence); exploration part: %d documents over %d entry-point kinds driven through parse -> print/to_json/format/validate/authorize/link/encode with all diagnostics rendered, under catch_unwind in subprocesses" % (ob, PROP_FILE, dis, len(cases), len(kinds)),
+        "obligations": ob, "discharged": dis, "theorems": details, "site_correspondence": sites,
+        "checker_cmd": "make -C coq props/C20_NoPanic.vo (coqc 8.16.1, Print Assumptions per theorem; coqchk in the thorough tier)",
         "evaluations": len(cases), "distinct_nontrivial": len(distinct),
         "rule": "documents: generated valid forms, structure-aware JSON mutations (drop/retype/duplicate subtree, escape objects with arities off by one), byte-level mutations, nesting up to 48; non-trivial = accepted by its entry point (so the downstream pipeline ran), distinct by hash",
         "per_kind": kinds, "accepted_per_kind": accepted, "panics": panics,
